@@ -156,7 +156,7 @@ type runResult struct {
 
 // runPath executes the entry function once along prefix.
 func runPath(p *program, cfg *Config, sv *solver, entry *ssa.Function, prefix []int, wantModel bool) (res *pathResult) {
-	ex := &executor{cfg: cfg, sv: sv, prefix: prefix, replaced: map[string]bool{}}
+	ex := &executor{cfg: cfg, sv: sv, prefix: prefix, replaced: map[string]bool{}, replOn: map[string]bool{}}
 	i := &interpreter{
 		prog:     p.prog,
 		globals:  make(map[*ssa.Global]*value),
